@@ -18,24 +18,34 @@ def seed():
 # everything it depends on (harness binary built from the current /repo tree, scenarios, spec, lib)
 
 def ring_ns(tier):
-    return [0, 1, 2, 3] if tier == 'quick' else [0, 1, 2, 3, 4]
+    return [0, 1, 2, 3, 4] if tier == 'quick' else [0, 1, 2, 3, 4, 5]
+
+
+def ring_raws(n):
+    """raw scenario files for capacity n (the largest capacity is generated family by family)"""
+    if n <= 4:
+        return [scen.ring_raw(n)]
+    return [scen.ring_raw(n, families=f) for f in (['single', 'positional', 'bulk', 'access', 'ctor', 'faults'],
+                                                    ['fill', 'extend', 'faults'], ['drain', 'faults'], ['iter'])]
 
 
 def ring_scenarios(tier, variant='plain', want=None):
     """(list of scenario dicts, list of L1 stats)"""
     out, stats = [], []
     for n in ring_ns(tier):
-        raw, st = scen.ring_raw(n)
-        stats.append(st)
-        for k, r in enumerate(scen.load_raw(raw)):
-            tags = scen.tags_of(r)
-            if want and not want(tags, r):
-                continue
-            if variant == 'plain':
-                out.append(scen.build(r, 'r%d-%d' % (n, k)))
-            else:
-                route, pat = variant.split(':')
-                out.append(scen.build(r, 'r%d-%d-%s-%s' % (n, k, route, pat), route=route, poison=pat))
+        k = 0
+        for raw, st in ring_raws(n):
+            stats.append(st)
+            for r in scen.load_raw(raw):
+                k += 1
+                tags = scen.tags_of(r)
+                if want and not want(tags, r):
+                    continue
+                if variant == 'plain':
+                    out.append(scen.build(r, 'r%d-%d' % (n, k)))
+                else:
+                    route, pat = variant.split(':')
+                    out.append(scen.build(r, 'r%d-%d-%s-%s' % (n, k, route, pat), route=route, poison=pat))
     return out, stats
 
 
@@ -267,10 +277,67 @@ def check_c04(tier, t0):
         'a read of unoccupied storage whose value is then discarded is not observable by this technique (DESIGN.md section 10)'])
 
 
+def io_scenarios(tier, fams):
+    ns = [0, 1, 2, 3] if tier == 'quick' else [0, 1, 2, 3, 4, 5]
+    out, stats = [], []
+    for n in ns:
+        raw, st = scen.ring_raw(n, families=['io'])
+        stats.append(st)
+        for k, r in enumerate(scen.load_raw(raw)):
+            for fam in fams:
+                out.append(scen.io_build(r, 'io%d-%d-%s' % (n, k, fam), fam))
+            if r['evs'][0]['op'] in ('read', 'fill_buf', 'consume'):
+                pat = ['00', 'ff', '5a'][k % 3]
+                out.append(scen.io_build(r, 'io%d-%d-%s-p%s' % (n, k, fams[k % len(fams)], pat), fams[k % len(fams)], poison=pat))
+    rnd = random.Random(seed())
+    nrand = 150 if tier == 'quick' else 1500
+    for n in [0, 1, 2, 3, 5, 8, 16, 33]:
+        for k in range(nrand):
+            out.append(scen.io_random(rnd, n, 'iornd%d-%d' % (n, k), fams, 14))
+    return out, stats
+
+
+def check_c14(tier, t0):
+    scs, stats = io_scenarios(tier, ['std'])
+    u = run_unit('io-std-%s-%d' % (tier, seed()), scs)
+    cov = l1_cov(stats)
+    cov['samples'] = sample_of(scs)
+    cov['families'] = ['std']
+    return judge('C14', [u], tier, t0, 'model_checking', cov, COMMON_ASSUME + [
+        'random interleavings (depth 14) at capacities 0,1,2,3,5,8,16,33 are sampled, seeded by VERIF_SEED; the per-transition set from every layout is exhaustive'])
+
+
+def check_c16(tier, t0):
+    units = []
+    stats = []
+    scs = []
+    for feat, fams in [('eio', ['eio', 'std']), ('eio-async', ['eio_async', 'std']), ('eio-both', ['eio', 'eio_async', 'std'])]:
+        scs, stats = io_scenarios(tier, fams)
+        u = run_unit('io-%s-%s-%d' % (feat, tier, seed()), scs, feat=feat)
+        if u.get('build_failed'):
+            # the crate (or the harness against it) does not build in a configuration the property is about
+            path = os.path.join(core.ensure(os.path.join(OUT, 'violations', 'C16')), 'build_%s.log' % feat)
+            open(path, 'w').write(u['build_output'])
+            log('VIOLATION property=C16 replay=%s  (configuration %s does not build)' % (path, feat))
+            core.write_evidence('C16', {'property_id': 'C16', 'tier': tier, 'seed': seed(), 'level': 'model_checking',
+                                        'coverage': {'evaluations': 1, 'distinct_nontrivial': 2, 'samples': [feat]},
+                                        'wall_s': time.time() - t0, 'violations': 1})
+            return 1
+        units.append(u)
+    cov = l1_cov(stats)
+    cov['samples'] = sample_of(scs)
+    cov['configurations'] = ['embedded-io', 'embedded-io-async', 'embedded-io + embedded-io-async']
+    return judge('C16', units, tier, t0, 'model_checking', cov, COMMON_ASSUME + [
+        'equivalence with std::io is established by validating every trait family against the same contract clauses from the same pre-states with the same arguments (the std family is replayed in the same builds)',
+        'async methods are polled exactly once with a no-op waker'])
+
+
 CHECKS = {}
 for _p in RING_WANT:
     CHECKS[_p] = (lambda p: (lambda tier, t0: check_ring(p, tier, t0)))(_p)
 CHECKS['C04'] = check_c04
+CHECKS['C14'] = check_c14
+CHECKS['C16'] = check_c16
 
 
 def check(pid, tier):
@@ -293,7 +360,7 @@ def setup(argv):
             return 2
     log('specs parse (%.0fs)' % (time.time() - t0))
     # 2. harness builds
-    for feat in ['default']:
+    for feat in ['default', 'eio', 'eio-async', 'eio-both']:
         binp, out = core.build_harness(feat, quiet=False)
         if binp is None:
             log(out[-3000:])
@@ -302,9 +369,14 @@ def setup(argv):
     # 3. scenario generation (TLC over Ring.tla, cached by spec hash)
     import concurrent.futures as cf
     ns = ring_ns('thorough' if '--thorough' in argv else 'quick')
-    with cf.ThreadPoolExecutor(max_workers=4) as ex:
-        for raw, st in ex.map(lambda n: scen.ring_raw(n), ns):
-            log('Ring.tla N=%d: %d states, %d scenarios, refinement holds (%.0fs)' % (st['n'], st['states'], st['scenarios'], st['wall_s']))
+    jobs = [(n, None) for n in ns if n <= 4] + [(n, ['io']) for n in ([0, 1, 2, 3] if '--thorough' not in argv else [0, 1, 2, 3, 4, 5])]
+    with cf.ThreadPoolExecutor(max_workers=6) as ex:
+        for raw, st in ex.map(lambda j: scen.ring_raw(j[0], families=j[1]), jobs):
+            log('Ring.tla N=%d %s: %d states, %d scenarios, refinement holds (%.0fs)' % (st['n'], ','.join(st['families']) if len(st['families']) < 5 else 'all', st['states'], st['scenarios'], st['wall_s']))
+        if '--thorough' in argv:
+            for res in ex.map(ring_raws, [n for n in ns if n > 4]):
+                for raw, st in res:
+                    log('Ring.tla N=%d %s: %d states, %d scenarios (%.0fs)' % (st['n'], ','.join(st['families']), st['states'], st['scenarios'], st['wall_s']))
     log('setup done in %.0fs' % (time.time() - t0))
     return 0
 
